@@ -236,6 +236,8 @@ impl Block for AuDecode {
                         "AU block only supports one channel currently, got {channels}"
                     )));
                 }
+                // The header is done with. What follows is sample data.
+                i.consume(header_rest_len);
                 self.state = DecodeState::Data;
             }
             DecodeState::Data => {
